@@ -904,6 +904,7 @@ where
             max_size,
         })));
         let inner_task = inner.clone();
+        let started_done = self.is_done();
 
         // Process change events.
         let tx_send = tx.clone();
@@ -939,6 +940,11 @@ where
                             // A subscription taken after the collection was marked done is
                             // done from the start, but still delivers its initial value.
                             if inner.done && inner.complete {
+                                // Subscribers that joined while the initial value was still
+                                // being received have seen no done event so far.
+                                if started_done && tx_send.receiver_count() > 0 {
+                                    let _ = tx_send.send(VecEvent::Done);
+                                }
                                 break;
                             }
                         }
@@ -1039,7 +1045,7 @@ where
     pub async fn subscribe(&self, buffer: usize) -> Result<VecSubscription<T, Codec>, RecvError> {
         let view = self.borrow().await?;
         let initial = view.clone();
-        let events = if view.is_done() { None } else { Some(self.tx.subscribe(buffer)) };
+        let events = if view.is_done() && view.is_complete() { None } else { Some(self.tx.subscribe(buffer)) };
 
         Ok(VecSubscription::new(VecInitialValue::new_value(initial), events))
     }
@@ -1054,7 +1060,7 @@ where
     pub async fn subscribe_incremental(&self, buffer: usize) -> Result<VecSubscription<T, Codec>, RecvError> {
         let view = self.borrow().await?;
         let initial = view.clone();
-        let events = if view.is_done() { None } else { Some(self.tx.subscribe(buffer)) };
+        let events = if view.is_done() && view.is_complete() { None } else { Some(self.tx.subscribe(buffer)) };
 
         Ok(VecSubscription::new(VecInitialValue::new_incremental(initial, Arc::new(default_on_err)), events))
     }
